@@ -86,7 +86,22 @@ func (g *Grid) CoqTerm() string {
 // toFloat converts an integer ordinate to the float the implementation will read back as the same integer.
 func toFloat(o int64) (float64, bool) {
 	f := intgeom.ToGeomOrd(o)
-	return f, intgeom.FromGeomOrd(f) == o
+	if intgeom.FromGeomOrd(f) == o {
+		return f, true
+	}
+	// large magnitudes (beyond 2^53 units): walk the neighbouring floats
+	up, down := f, f
+	for i := 0; i < 16; i++ {
+		up = math.Nextafter(up, math.Inf(1))
+		if intgeom.FromGeomOrd(up) == o {
+			return up, true
+		}
+		down = math.Nextafter(down, math.Inf(-1))
+		if intgeom.FromGeomOrd(down) == o {
+			return down, true
+		}
+	}
+	return f, false
 }
 
 func ringToFloat(r []Pt) ([][2]float64, bool) {
